@@ -293,6 +293,38 @@ example : Resp.unpackSingle (Resp.concreteCodec { toyCodec with parseFloat := fu
 /-- and 3.7 truncates to 3 (the silent truncation of C06) -/
 example : Resp.truncF64 0x400D99999999999A = .ok 3 := rfl
 
+/-- **the RecursionError class, stated exactly for the model**: a response that can be handled with
+    budget 0 — i.e. whose handling never has to parse an embedded object: no EmbeddedObject value is
+    reached — gives the same outcome for EVERY budget, never RecursionError, and every exception is a
+    documented class; for every codec, without hypothesis.  In the model RecursionError therefore arises only
+    on responses that reach embedded-object text, and only through an exhausted nesting budget (the real
+    interpreter additionally limits the element nesting: C02-KF1, about 150 levels, K only). -/
+theorem C02_no_recursion_without_embedded_parsing (C : EnvCodec) (op : OpSpec) (t : Xml)
+    (h0 : handleResponse (conc C) 0 op t ≠ .error .recursionError) (m : Nat) :
+    handleResponse (conc C) m op t = handleResponse (conc C) 0 op t ∧
+    handleResponse (conc C) m op t ≠ .error .recursionError ∧
+    ∀ e, handleResponse (conc C) m op t = .error e → Documented e := by
+  have h := C02_envelope_no_leak_no_hypothesis C 0 op t h0 m (Nat.zero_le m)
+  refine ⟨h.1, ?_, h.2⟩
+  rw [h.1]; exact h0
+
+/-- non-vacuity: the CIM error response above needs no embedded parsing -/
+example : handleResponse (conc ⟨toyCodec, fun _ => none⟩) 0
+    { kind := .imethod, meth := "GetInstance".toList, post := .oneInst }
+    (.elem "CIM".toList [("CIMVERSION".toList, "2.0".toList), ("DTDVERSION".toList, "2.0".toList)]
+      [.elem "MESSAGE".toList [("ID".toList, ['1']), ("PROTOCOLVERSION".toList, "1.0".toList)]
+        [.elem "SIMPLERSP".toList [] [.elem "IMETHODRESPONSE".toList [("NAME".toList, "GetInstance".toList)]
+          [.elem "ERROR".toList [("CODE".toList, ['6'])] []]]]])
+    ≠ .error .recursionError := by
+  intro h
+  have : handleResponse (conc ⟨toyCodec, fun _ => none⟩) 0
+    { kind := .imethod, meth := "GetInstance".toList, post := .oneInst }
+    (.elem "CIM".toList [("CIMVERSION".toList, "2.0".toList), ("DTDVERSION".toList, "2.0".toList)]
+      [.elem "MESSAGE".toList [("ID".toList, ['1']), ("PROTOCOLVERSION".toList, "1.0".toList)]
+        [.elem "SIMPLERSP".toList [] [.elem "IMETHODRESPONSE".toList [("NAME".toList, "GetInstance".toList)]
+          [.elem "ERROR".toList [("CODE".toList, ['6'])] []]]]]) = .error (.cimError 6) := rfl
+  rw [this] at h; cases h
+
 /-- **HTTP layer, exact**: the response body is looked at iff the status is 200 and the Content-type
     header is absent or starts with application/xml or text/xml -/
 theorem C02_http_accepts_iff (h : HttpResp) :
